@@ -9,6 +9,7 @@ pub mod c04;
 pub mod c05;
 pub mod c06;
 pub mod c07;
+pub mod c11;
 pub mod c13;
 pub mod c14;
 pub mod c15;
@@ -37,6 +38,7 @@ pub fn make(id: &str, tier: Tier) -> Option<Box<dyn Check>> {
     "C05" => Some(Box::new(c05::C05::new(tier))),
     "C06" => Some(Box::new(c06::C06::new(tier))),
     "C07" => Some(Box::new(c07::C07::new(tier))),
+    "C11" => Some(Box::new(c11::C11::new(tier))),
     "C13" => Some(Box::new(c13::C13::new(tier))),
     "C14" => Some(Box::new(c14::C14::new(tier))),
     "C15" => Some(Box::new(c15::C15::new(tier))),
